@@ -300,11 +300,13 @@ func serviceScenarios(design string, sp *spec.Spec, svc *spec.Service) []vrt.Sce
 	}
 	mk := func(thoroughOnly bool, idx ...int) vrt.Scenario {
 		var parts, sig []string
-		// thorough: two threads = preemption bound 2 AND all interleavings (the complete search
+		// thorough: two threads = all interleavings, and for the quick covering set also preemption bound 2 (the complete search
 		// costs a few dozen executions here and subsumes every bound); three threads =
 		// preemption bound 2 (their complete search runs to 10^4..10^5 inequivalent interleavings
 		// as soon as the pattern cache is involved)
-		sc := vrt.Scenario{Family: "c20B", ThoroughOnly: thoroughOnly, ThoroughBound: 2, NoThoroughComplete: len(idx) >= 3}
+		// pairs outside the quick covering set: all interleavings only
+		sc := vrt.Scenario{Family: "c20B", ThoroughOnly: thoroughOnly, ThoroughBound: 2, NoThoroughComplete: len(idx) >= 3,
+			NoThoroughBounded: thoroughOnly && len(idx) == 2}
 		for t, i := range idx {
 			tag := fmt.Sprintf("t%d", t)
 			m := univ[i].m
